@@ -19,14 +19,18 @@ reformatting the source around them or renaming a local variable does not.
 | `parse_intf_short` / `parse_intf_long`: `\:(?P<channel>\d+)` | `searchAfter ':'` |
 | `parse_intf_short` / `parse_intf_long`: `(?P<interface_class>\s+[a-zA-Z\-]+)$` | `classWord` |
 | `parse_intf_long`: `^(?P<slot>\d+)(?P<sep1>[^\:^\.^\-^\s^\d^a-z^A-Z])?(?P<card>\d+)?(?P<sep2>[^\:^\.^\-^\s^\d^a-z^A-Z])?(?P<port>\d+)?` | `scanSlotCardPort` (`optDigits`, `optSep`, class `isSepCh`) |
-| `parse_intf_long`: `re.split(r"\s+", …)[1]` (value overwritten by the `interface_class` search that follows) | not needed by `parseLong`; listed because it is part of the scan list |
+| `parse_intf_long`: `re.split(r"\s+", …)[1]` (value overwritten by the `interface_class` search that follows) | not needed by `parseLong`; listed because it is part of the scan set |
 | `CiscoRange.__init__`: `",," in text` | `Ccp.Range.hasDoubleComma` (used by `parseRange`) |
 | `parse_cisco_interfaces`: `text.split(",")` | `splitOn ','` in `plan` |
 | `parse_cisco_interfaces`: `re.split(r"(?<=\d)\s*-\s*(?=\d)", _csv_part)` | `splitIv` / `splitIvGo` (the interval splitter) |
 | `parse_cisco_interfaces`: `"".join(filter(str.isdigit, text.split()[-1]))` | `lastWord`, `digitsOf` |
 
-`rxScan…` are *scan lists*: every regex call, literal `str` separator and `"lit" in …` test of the function, distinct,
-in order of first appearance, as `(callee, text, flags)`.
+`rx…` are *scan sets* (`harness/rxscan.py`, `scan_closure`): for the named entry point and every helper of the same
+source file it reaches, every regex call (with flags; a compiled pattern's method is reported as the `re.` function
+with the pattern's text), literal `str` separator and `"lit" in …` test, as a sorted duplicate-free list of
+`(what, text, flags or detail)`.  So a regex call that is added to, or removed from, the modelled code breaks the
+obligation as well, while moving a test into a helper method, re-ordering tests, negating one (`!=` is reported as
+`==`, `not in` as `in`), hoisting a pattern into a compiled constant or renaming a constant / local variable does not.
 -/
 namespace Ccp.RxC15
 
@@ -34,32 +38,24 @@ namespace Ccp.RxC15
 source for which the model contains a hand-written scanner has the text that scanner was written for.  (The goals
 are named `regexes_as_modelled__<definition>`, so that a failing build names the constant that was edited.) -/
 theorem regexes_as_modelled :
-    Gen.rxScanIntfParseSingle =
+    Gen.rxIntfParse =
       [("lit in", ",", ""),
+       ("re.search", "(?P<interface_class>\\s+[a-zA-Z\\-]+)$", ""),
+       ("re.search", ".*", ""),
+       ("re.search", "\\.(?P<subinterface>\\d+)", ""),
+       ("re.search", "\\:(?P<channel>\\d+)", ""),
        ("re.search", "^(?P<prefix>[a-zA-Z\\-\\s]*)(?P<port_subinterface_channel>[\\d\\:\\.^\\-^a-z^A-Z^\\s]+)(?P<interface_class>\\s+[a-zA-Z\\-]+){0,1}$", ""),
        ("re.search", "^(?P<prefix>[a-zA-Z\\-\\s]*)(?P<slot_card_port_subinterface_channel>[\\d\\:\\.\\/^\\-^a-z^A-Z^\\s]+)(?P<interface_class>\\s+[a-zA-Z\\-]+){0,1}$", ""),
-       ("re.search", ".*", "")] ∧
-    Gen.rxScanIntfParseShort =
-      [("re.search", "^\\D*(?P<port>\\d+)", ""),
-       ("re.search", "\\.(?P<subinterface>\\d+)", ""),
-       ("re.search", "\\:(?P<channel>\\d+)", ""),
-       ("re.search", "(?P<interface_class>\\s+[a-zA-Z\\-]+)$", "")] ∧
-    Gen.rxScanIntfParseLong =
-      [("re.search", "^(?P<slot>\\d+)(?P<sep1>[^\\:^\\.^\\-^\\s^\\d^a-z^A-Z])?(?P<card>\\d+)?(?P<sep2>[^\\:^\\.^\\-^\\s^\\d^a-z^A-Z])?(?P<port>\\d+)?", ""),
-       ("re.split", "\\s+", ""),
-       ("re.search", "\\.(?P<subinterface>\\d+)", ""),
-       ("re.search", "\\:(?P<channel>\\d+)", ""),
-       ("re.search", "(?P<interface_class>\\s+[a-zA-Z\\-]+)$", "")] ∧
-    Gen.rxScanRangeInit =
-      [("lit in", ",,", "")] ∧
-    Gen.rxScanRangeParseInterfaces =
-      [("str.split", ",", ""),
+       ("re.search", "^(?P<slot>\\d+)(?P<sep1>[^\\:^\\.^\\-^\\s^\\d^a-z^A-Z])?(?P<card>\\d+)?(?P<sep2>[^\\:^\\.^\\-^\\s^\\d^a-z^A-Z])?(?P<port>\\d+)?", ""),
+       ("re.search", "^\\D*(?P<port>\\d+)", ""),
+       ("re.split", "\\s+", "")] ∧
+    Gen.rxRangeInterfaces =
+      [("lit in", ",,", ""),
        ("re.split", "(?<=\\d)\\s*-\\s*(?=\\d)", ""),
        ("str.join", "", ""),
+       ("str.split", ",", ""),
        ("str.split()", "", "")] := by
-  refine ⟨?regexes_as_modelled__rxScanIntfParseSingle, ?regexes_as_modelled__rxScanIntfParseShort,
-    ?regexes_as_modelled__rxScanIntfParseLong, ?regexes_as_modelled__rxScanRangeInit,
-    ?regexes_as_modelled__rxScanRangeParseInterfaces⟩
+  refine ⟨?regexes_as_modelled__rxIntfParse, ?regexes_as_modelled__rxRangeInterfaces⟩
   all_goals rfl
 
 end Ccp.RxC15
